@@ -85,7 +85,7 @@ func (f *Func) Redefine(opts ...Arg) (*Func, error) {
 			callArgs = append(callArgs, namedValue(name, v.Field(f.index)))
 		}
 		for _, f := range set.typedValues {
-			callArgs = append(callArgs, Typed(v.Field(f.index).Interface()))
+			callArgs = append(callArgs, typedValue(v.Field(f.index)))
 		}
 
 		// Call
@@ -133,6 +133,23 @@ func namedValue(n string, rv reflect.Value) Arg {
 		}
 
 		a.named[strings.ToLower(n)] = rv
+		return nil
+	}
+}
+
+// typedValue is the type-only counterpart of namedValue: like Typed, but the
+// value keeps the static type of the redefined function's input. An input
+// declared with an interface type must reach the original function as a value
+// of that interface type. Typed would file it under its dynamic type, where
+// it replaces a value of that type the caller gave to Redefine and no longer
+// matches the requirement it was declared for.
+func typedValue(rv reflect.Value) Arg {
+	return func(a *argBuilder) error {
+		if !rv.IsValid() {
+			return nil
+		}
+
+		a.typed[rv.Type()] = rv
 		return nil
 	}
 }
